@@ -3,6 +3,7 @@ package props
 import (
 	"fmt"
 	"io"
+	"math"
 	"strconv"
 	"strings"
 
@@ -267,6 +268,16 @@ func c01Families(tier string) []explore.Family {
 		}
 		src := strings.ReplaceAll(strings.ReplaceAll(f, "A", e[0]), "B", e[1])
 		c01Check(r, "huge-range", src, map[string]any{"l": []any{1, 2}}, func() any { return map[string]any{"template": src} })
+	}})
+
+	// 2b'. SHORT ranges at the edges of the integers (two or three elements ending at MaxInt64 / starting at MinInt64,
+	// also with the bounds in variables): every form, including the iterating ones
+	edgeEnds := [][2]string{{"9223372036854775806", "9223372036854775807"}, {"9223372036854775807", "9223372036854775807"}, {"-9223372036854775808", "-9223372036854775807"},
+		{"-9223372036854775808", "-9223372036854775808"}, {"9223372036854775807", "9223372036854775806"}, {"hi1", "hi"}, {"lo", "lo1"}, {"2147483646", "2147483648"}}
+	fams = append(fams, explore.Family{Name: "short-ranges-at-the-integer-edges", Count: int64(len(hugeForms) * len(edgeEnds)), Run: func(i int64, r *explore.Rec) {
+		e, f := edgeEnds[int(i)%len(edgeEnds)], hugeForms[int(i)/len(edgeEnds)]
+		src := strings.ReplaceAll(strings.ReplaceAll(f, "A", e[0]), "B", e[1])
+		c01Check(r, "edge-range", src, map[string]any{"l": []any{1, 2}, "hi": math.MaxInt64, "hi1": math.MaxInt64 - 1, "lo": math.MinInt64, "lo1": math.MinInt64 + 1}, func() any { return map[string]any{"template": src} })
 	}})
 
 	// 2c. very deep values: slices in slices, maps in maps, pointers to pointers, Drops yielding Drops, nested
